@@ -2575,7 +2575,7 @@ class PyCdlib:
             for rec in self.eltorito_boot_catalog.dirrecords:
                 if isinstance(rec, udfmod.UDFFileEntry):
                     continue
-                if rec.file_ident == found_record.file_ident and rec.parent == found_record.parent:
+                if rec is found_record:
                     recdata = self.eltorito_boot_catalog.record()
                     outfp.write(recdata)
                     utils.zero_pad(outfp, len(recdata), self.logical_block_size)
